@@ -334,7 +334,7 @@ def lle_call_configs(tier):
         # the larger ones on the amounts per unit of feed (see top_rule_per_unit_feed)
         # 'state': also check the remembered state (entry state of the reuse branch); expensive for three chemicals
         out.append({'name': nm, 'pkg': pkg, 'phases': phases, 'pattern': pat, 'top': top, 'solver': mode, 'per_unit': pkg != 'WO',
-                    'state': mode == 'interior' and (pkg == 'WO' or tier == 'thorough')})
+                    'state': mode == 'interior' and (pkg == 'WO' or (tier == 'thorough' and phases == 'lL' and top == 'Octanol'))})
     return out
 
 
@@ -996,7 +996,7 @@ def _b_tops(fam, tier):
 
 
 def _b_Ts(tier):
-    return [290., 320., 350.] if tier == 'quick' else [285., 295., 305., 315., 325., 335., 345., 355.]
+    return [290., 350.] if tier == 'quick' else [285., 295., 305., 315., 325., 335., 345., 355.]
 
 
 def _seeded_feeds(fam, n):
@@ -1023,7 +1023,7 @@ def real_split_configs(tier):
     return out
 
 
-B_NOTES = ('families Water/Octanol/Ethanol, Water/Butanol, Water/Hexane/Ethanol, Water/EthylAcetate/Ethanol; quick: 1 feed x T in {290,320,350} K; '
+B_NOTES = ('families Water/Octanol/Ethanol, Water/Butanol, Water/Hexane/Ethanol, Water/EthylAcetate/Ethanol; quick: 1 feed x T in {290,350} K; '
            'thorough: 5 feeds (2 seeded by VERIF_SEED) x T 285..355 K step 10; methods pseudo equilibrium / shgo / differential evolution; '
            'top chemical None or each chemical; scale factors 1e-3..1e3; equal-activity tolerance 1e-3 (pseudo equilibrium) / 2e-2 (optimisers)')
 
@@ -1061,6 +1061,7 @@ def real_split(w, cfg):
             wL = fl['L'][k] * MW[k] / (fl['L'] * MW).sum()
             wl = fl['l'][k] * MW[k] / (fl['l'] * MW).sum()
             w.ensure(f'top chemical {top}: mass fraction in L >= in l', wL >= wl - 1e-12, w_L=float(wL), w_l=float(wl))
+    w.canary('canary (not evaluated in mode B): the whole feed ends up in one liquid', fl['l'].sum() == 0. or fl['L'].sum() == 0.)
     for k in cfg['scales']:
         s2 = b_stream(fam, feed, k)
         try:
@@ -1082,13 +1083,15 @@ def _histories(tier):
         'hotter': [(+40., 'same')],
         'colder': [(-40., 'same')],
         'same': [(0., 'same')],
-        'otherz': [(0., 'other')],
         'hotter-otherz+colder': [(+30., 'other'), (-30., 'same')],
     }
     if tier == 'thorough':
         h.update({
+            'otherz': [(0., 'other')],
             'colder+hotter': [(-30., 'same'), (+30., 'same')],
             'same+same': [(0., 'same'), (0., 'same')],
+            'same+hotter': [(0., 'same'), (+30., 'same')],      # the remembered T / z must be those of the LAST call
+            'same+otherz': [(0., 'same'), (0., 'other')],
             'otherz+same': [(0., 'other'), (0., 'same')],
             'hotter+colder+same': [(+30., 'same'), (-30., 'same'), (0., 'same')],
             'otherz+hotter-otherz+colder': [(0., 'other'), (+25., 'other'), (-25., 'same')],
@@ -1142,6 +1145,7 @@ def real_history(w, cfg):
             continue
         results[use_cache] = b_flows(s)
     w.note(fresh=b_round(f0), **{f'reuse_{k}': b_round(v) for k, v in results.items()})
+    w.canary('canary (not evaluated in mode B): the fresh stream stays one liquid', f0['l'].sum() == 0. or f0['L'].sum() == 0.)
     if True in results:
         w.ensure('after the history, reuse allowed: same split as a fresh stream', b_same_split(results[True], f0, F),
                  fresh=b_round(f0), got=b_round(results[True]))
